@@ -796,6 +796,22 @@ def rule_cell_rmw(ctx):
                     continue
                 gets = [x for x in subterms(e.args[1]) if x[0] == "call" and norm(x[1]) == "std::cell::Cell::get"
                         and outer_field(x[2][0]) == cell]
+                # a counter is a function of itself: what is written derives from no *other* counter of the participant
+                # (mutation sweep 3: `acquire_handle` writing guard_count + 1 into handle_count - the participant of a
+                # thread that reactivated under nested guards is never finalized)
+                COUNTERS = ("Local.guard_count", "Local.handle_count", "Local.pin_count", "Local.advance_count", "Local.manual_count")
+                if cell in COUNTERS:
+                    foreign = sorted({outer_field(x[2][0]) for x in subterms(e.args[1]) if x[0] == "call" and x[2]
+                                      and norm(x[1]) in ("std::cell::Cell::get", "std::cell::Cell::replace", "std::cell::Cell::take")
+                                      and outer_field(x[2][0]) in COUNTERS and outer_field(x[2][0]) != cell})
+                    kx = ("x", cell, e.body.name, e.bb)
+                    if kx not in seen:
+                        seen.add(kx)
+                        r.instance("%s: what is written to %s derives from no other counter" % (name.split("::")[-1], cell), not foreign)
+                        if foreign:
+                            r.violate(name, "cross:" + cell, "writes a value derived from %s into %s: the two counters count "
+                                      "different things (guards alive / handles alive / events since the last trigger)"
+                                      % (foreign, cell), e.loc())
                 if not gets:
                     continue
                 gi = [j for j, q in enumerate(p.events[:i]) if q.kind == "call" and q.result == gets[0]]
